@@ -869,3 +869,47 @@ pub fn mount_at(real: &str, fixed: &str) -> String {
         real.to_string()
     }
 }
+
+/// On SIGSEGV / SIGBUS / SIGILL / SIGFPE / SIGABRT writes `CRASH signal=<n> thread=<name>` to stderr and lets
+/// the default action kill the process: a memory-safety failure is then attributable to the sim
+/// thread it happened in. (The handler runs on the faulting thread itself, on the alternate stack
+/// std installs for every thread; it replaces std's stack-overflow reporter.)
+pub fn install_crash_reporter() {
+    if std::env::var_os("ASAN_OPTIONS").is_some() {
+        return; // the sanitizer build reports crashes itself
+    }
+    extern "C" fn on_crash(sig: libc::c_int, _info: *mut libc::siginfo_t, _ctx: *mut libc::c_void) {
+        let mut buf = [0u8; 160];
+        let mut n = 0usize;
+        let mut put = |bytes: &[u8]| {
+            for &b in bytes {
+                if n < buf.len() {
+                    buf[n] = b;
+                    n += 1;
+                }
+            }
+        };
+        put(b"\nCRASH signal=");
+        put(&[b'0' + (sig / 10) as u8 % 10, b'0' + (sig % 10) as u8]);
+        put(b" thread=");
+        let cur = std::thread::current();
+        match cur.name() {
+            Some(name) => put(name.as_bytes()),
+            None => put(b"?"),
+        }
+        put(b"\n");
+        unsafe {
+            libc::write(2, buf.as_ptr() as *const libc::c_void, n);
+            // SA_RESETHAND: returning re-executes the faulting instruction under the default action
+        }
+    }
+    unsafe {
+        let mut sa: libc::sigaction = std::mem::zeroed();
+        sa.sa_sigaction = on_crash as usize;
+        sa.sa_flags = libc::SA_SIGINFO | libc::SA_ONSTACK | libc::SA_RESETHAND;
+        libc::sigemptyset(&mut sa.sa_mask);
+        for sig in [libc::SIGSEGV, libc::SIGBUS, libc::SIGILL, libc::SIGFPE, libc::SIGABRT] {
+            libc::sigaction(sig, &sa, std::ptr::null_mut());
+        }
+    }
+}
